@@ -38,6 +38,7 @@ Record oview := mkoview {
   o_times : list tok;
   o_store : option (store (A := Z));
   o_lookup : option (list (list (list Z)));   (* get_waveforms(stored ids, all channels), when a store is loaded *)
+  o_lookup_ok : bool;                         (* false = that call raised (or returned something that is not spikes x samples x channels) *)
   o_changed : list string
 }.
 Inductive oreload := OView (v : oview) | OFail.
@@ -92,8 +93,10 @@ Definition op_ok (r : rest) (o : op) : bool :=
   | SaveSubset ids w =>
       match r_raw r with
       | None => match ids with [] => true | _ => false end
+      (* any number of selected spikes, one and none included: the loader no longer squeezes the
+         three store files (repair on branch fix-c10b) *)
       | Some _ => incr_b ids && forallb (fun i => (0 <=? i) && (i <? zlen (r_samples r))) ids &&
-                  (2 <=? zlen ids) && (12 <=? w)
+                  (12 <=? w)
       end
   | _ => true
   end.
@@ -119,7 +122,11 @@ Definition rest_ok_b (r : rest) : bool :=
 Definition disk_ok (d : disk) : bool :=
   rest_ok_b (d_rest d) && nodup_b fname_eqb (map fst (d_files d)) && forallb (fun nf => file_ok (snd nf)) (d_files d) &&
   (zlen (d_clusters d) =? zlen (r_samples (d_rest d))) &&
-  match d_subset d with None => true | Some _ => false end.
+  (* a store present before the first load: only one whose waveform file np.load rejects *)
+  match d_subset d with
+  | None => true
+  | Some sf => match np_load (sf_wave sf) with None => true | Some _ => false end
+  end.
 
 (* names of every metadata file that exists after the prefix *)
 Definition op_name (o : op) : list fname :=
@@ -217,7 +224,7 @@ Definition check_view (d0 : disk) (pre : list op) (d : disk) (ob : oreload) : li
       flag 24 (zlist_eqb (o_templates v) (r_templates r) && zlist_eqb (o_samples v) (r_samples r) &&
                list_eqb' tok_eqb (o_times v) (r_times r)) ++
       flag 25 (opt_store_eqb (o_store v) (expected_hist_store d0 pre)) ++
-      flag 27 (clause_lookup d0 pre v) ++
+      flag 27 (o_lookup_ok v && clause_lookup d0 pre v) ++
       flag 28 (match o_changed v with [] => true | _ => false end)
   end.
 
